@@ -31,6 +31,13 @@ def run(check):
     check.guarded("KEPT-IN-PLACE", X.rule_kept_in_place)
     check.guarded("NODE-REBUILD", X.rule_node_rebuild)
     check.guarded("METHOD-NAME-KEPT", X.rule_method_name_kept)
+    check.guarded("OPTCHAIN-SPINE", X.rule_optchain_spine)
+    check.guarded("INPUT-UNTOUCHED", X.rule_input_untouched)
+    # a file that is not instrumented must come back as it went in: the package hands back the caller's
+    # text for `notmodified` results, which needs the metrics (and their status) on every result
+    from . import c12 as _c12
+    check.guarded("JS-HANDBACK", _c12.rule_js_handback)
+    check.guarded("METRICS-PRESENT", _c12.rule_metrics_present)
     from . import c06 as _c06
     check.guarded("DECLARE-SCOPE", _c06.rule_declare_scope)
     # every temporary a hook call uses is declared by the `let` of the block whose visitor created it
